@@ -399,7 +399,7 @@ def lambda_head(ctx, rid, core, G, scope_fns):
     try:
         spread_first = (G.alt_names("spreadable_expression") or [None])[0] == "spread_expression"
         tok = G.literal_of("spread_operator") or "..."
-    except Exception:
+    except CheckerError:
         spread_first, tok = True, "..."
     I_, pf = interp(core)
     LARG = "values::LambdaArg"
